@@ -1205,6 +1205,11 @@ func (c *Context) quantize(d, v *Decimal, exp int32) Condition {
 			}
 		} else {
 			nc := c.WithPrecision(uint32(p))
+			// The rounding below happens in a shifted exponent frame (see
+			// next comment), so the caller's MinExponent must not apply to
+			// it; otherwise a context with MinExponent == 0 would treat 0.x
+			// as subnormal.
+			nc.MinExponent = MinExponent
 
 			// The idea here is that the resulting d.Exponent after rounding will be 0. We
 			// have a number of, say, 5 digits, but p (our precision) above is set at, say,
